@@ -246,6 +246,28 @@ def check_series(s, m):
                 if not ((math.isnan(a) and math.isnan(b)) or a == b or abs(a - b) <= 1e-9 * max(1.0, abs(b))):
                     fails.append(("tearsheet", "tearsheet reports %s = %r, %s() on the same series gives %r" % (key[1], a, name, b)))
                     break
+    # a risk-free LEVEL series with a longer history than the analysed window (it doubled the year before, it creeps inside the
+    # window): the report is about the window, so it equals the report obtained with the risk-free series cut to the window
+    if not fails and len(x.index) >= 3:
+        idx = list(x.index)
+        inside = [2.0 * (1.0 + 0.001 * k) for k in range(len(idx))]
+        rf_cut = pd.Series(inside, index=pd.DatetimeIndex(idx), name="RF")
+        rf_long = pd.Series([1.0, 1.5] + inside, index=pd.DatetimeIndex([idx[0] - timedelta(days=365), idx[0] - timedelta(days=100)] + idx), name="RF")
+        o1, t1 = impl.classify(lambda: x.tearsheet(risk_free=rf_cut))
+        o2, t2 = impl.classify(lambda: x.tearsheet(risk_free=rf_long))
+        if o1 == "ok" and o2 != "ok":
+            fails.append(("tearsheet", "tearsheet(risk_free=<series with a longer history>) raised %r" % (t2,)))
+        elif o1 == "ok":
+            for key in t1.index:
+                try:
+                    a, b2 = t1.iloc[:, 0][key], t2.iloc[:, 0][key]
+                    fa, fb = float(np.asarray(a).ravel()[0]), float(np.asarray(b2).ravel()[0])
+                except Exception:  # noqa: BLE001 - a non-numeric row (names)
+                    continue
+                if not ((math.isnan(fa) and math.isnan(fb)) or fa == fb or abs(fa - fb) <= 1e-9 * max(1.0, abs(fa))):
+                    fails.append(("tearsheet", "tearsheet row %s = %r with the risk-free series cut to the analysed window, %r when the same "
+                                  "series also carries earlier history" % (key, fa, fb)))
+                    break
     # DataFrame with two columns: every metric column by column
     if not fails:
         df = pd.DataFrame({"L": x, "B": bench})
